@@ -388,3 +388,58 @@ def c06(r):
         (lambda e: ok(e) and bump(["days"])(e), "C06.year.dayCount")]}, per_kind=1)
     if ch_e:
         r.negctl("Trace_Lunar", ch_e[0], {"LunarEdge": [(lambda e: e["p"] == 0 and bump(["res", 3])(e), "C06.edge.MonthNext")]})
+
+
+@plan("C01", "model_checking")
+def c01(r):
+    thorough = r.tier == "thorough"
+    r.rule = ("TLC model-checks MC_Lunar on the tables dumped from the current tree (invariant ConvertOK: looking a civil day up in "
+              "its civil year's table gives the chain position, and the lunar->civil map inverts it; CoverOK: no uncovered day) and "
+              "every DayNext(n) edge, n in {+-1,+-29,+-30,+-354,+-384}, is executed on real Lunar objects (lunar-side and civil-side "
+              "stepping). One frame per civil year (%s) carries the year's table and, for every day at a rotating time of day "
+              "(00:00:00, 12:00:00, 23:00:00, 23:59:59, 00:59:59, 22:59:59, random): Solar.GetLunar, NewLunar from those numbers, its "
+              "civil date, the way back, the digest of all zero-argument getters of both objects (path independence), Lunar.Next(n) vs "
+              "civil NextDay(n). TLC checks the unique-month lookup, both round trips, strict order along the year, injectivity. "
+              "Distinct non-trivial case = distinct civil day or distinct (lunar date, n) edge." %
+              ("every civil year 1..9998, all 3.65M days; getter digests on every 10th day" if thorough else "100 seeded + 25 boundary years; getter digests on every 3rd day"))
+    r.assumptions += ["the month table is the code's own published table (its truth is C06/C02); this check decides the conversions given the table",
+                      "path independence is compared through a digest of the rendered results of all exported zero-argument methods"]
+    r.build()
+    ch_e = lunar_model(r, "DayNext")
+    ch = r.drive("c01years", args={"years": 100, "digest": 10 if thorough else 3}, maxlines=12)
+    r.validate("Trace_Lunar", ch)
+    r.sample_from(ch[:1] + ch_e[:1])
+    r.cov["samples"] = [s[:500] for s in r.cov["samples"]]
+    days = 0
+    for c in ch:
+        for line in open(c, encoding="utf-8"):
+            days += len(json.loads(line)["rows"])
+    r.cov["days_converted"] = days
+    r.cov["distinct_nontrivial"] = days + r.cov["replayed_edges"]
+    def rowmut(field, idx, delta=1):
+        def f(e):
+            if e["p"] != 0 or len(e["rows"]) < 50:
+                return False
+            row = e["rows"][40]
+            if row.get("pa") != 0 or row.get("pb") != 0 or field not in row:
+                return False
+            row[field][idx] += delta
+            return True
+        return f
+    def dig(e):
+        for row in e["rows"]:
+            if "da" in row:
+                row["db"] = "0" * 16
+                return True
+        return False
+    def dup(e):
+        if len(e["rows"]) < 60:
+            return False
+        e["rows"][50]["a"] = list(e["rows"][49]["a"])
+        return True
+    r.negctl("Trace_Lunar", ch[0], {"C01Year": [
+        (rowmut("a", 2), "C01.toLunar"), (rowmut("bs", 2), "C01.fromLunar.civil-day"), (rowmut("bl", 1), "C01.fromLunar.back"),
+        (rowmut("nx", 8), "C01.next.civil-day"), (rowmut("nx", 4), "C01.next.same-as-civil-route"), (dig, "C01.path-independence"),
+        (dup, "C01.injective")]}, per_kind=1)
+    if ch_e:
+        r.negctl("Trace_Lunar", ch_e[0], {"LunarEdge": [(lambda e: e["p"] == 0 and bump(["res", 2])(e), "C01.edge.DayNext")]})
